@@ -877,6 +877,12 @@ def replay(data):
         for t in range(inp["ts_length"] - 1):
             rhs = madd(mm(A, [[X[i][t]] for i in range(d["n"])]), mm(C, [[frac(inp["w"][i][t])] for i in range(d["m"])]))
             print("   t=%d: x_{t+1} == A x_t + C w_{t+1}:" % t, [[X[i][t + 1]] for i in range(d["n"])] == rhs)
+        Y = fm(y)
+        for t in range(inp["ts_length"]):
+            rhs = mm(G, [[X[i][t]] for i in range(d["n"])])
+            if with_H:
+                rhs = madd(rhs, mm(H, [[frac(inp["v"][i][t])] for i in range(d["l"])]))
+            print("   t=%d: y_t == G x_t + H v_t:" % t, [[Y[i][t]] for i in range(d["k"])] == rhs)
     elif "beta" in inp:
         ss = mk_lss(d, inp.get("with_H", True))
         Sx, Sy = ss.geometric_sums(inp["beta"], npm(fm(inp["x_t"])))
